@@ -52,11 +52,20 @@ def r1_r2(ctx):
     cancel_ok = False
     found = "close() does not cancel the tasks in _background_tasks (a delayed connect retry survives close())"
     for lp in loops:
-        it = lp.iter
-        src = it.args[0] if isinstance(it, ast.Call) and dotted(it.func) in ("list", "tuple", "set") and it.args else it
+        ln = next((n for n in g.nodes if n.kind == "for" and n.ast is lp), None)
+        it = cl.expand(lp.iter, ln) if ln is not None else lp.iter  # a local that holds the snapshot reads as the snapshot
+        src = it.args[0] if isinstance(it, ast.Call) and dotted(it.func) in ("list", "tuple", "set", "frozenset") and it.args else it
         if isinstance(it, ast.Call) and (dotted(it.func) or "").endswith("_background_tasks.copy"):
             src = it.func.value
-        if dotted(src) != "self._background_tasks" or not isinstance(lp.target, ast.Name):
+        comp_filter_ok = True
+        if isinstance(it, (ast.ListComp, ast.SetComp)) and len(it.generators) == 1 and isinstance(it.generators[0].target, ast.Name) and isinstance(it.elt, ast.Name) and it.elt.id == it.generators[0].target.id:
+            # snapshot written as a comprehension; the only permitted filter is `t is not <current task>`
+            src = it.generators[0].iter
+            for cnd in it.generators[0].ifs:
+                if not (isinstance(cnd, ast.Compare) and len(cnd.ops) == 1 and isinstance(cnd.ops[0], (ast.IsNot, ast.NotEq)) and isinstance(cnd.left, ast.Name) and cnd.left.id == it.elt.id):
+                    comp_filter_ok = False
+                    found = f"only tasks satisfying `{norm_text(cnd)}` are cancelled"
+        if dotted(src) != "self._background_tasks" or not isinstance(lp.target, ast.Name) or not comp_filter_ok:
             continue
         if src is it:
             found = "iterates the live set while done-callbacks discard from it"
@@ -78,7 +87,7 @@ def r1_r2(ctx):
     ctx.check(cancel_ok, R2, "close:cancels-background-tasks", m, cl.node, "close() cancels every task in _background_tasks (except the calling task)", found if not cancel_ok else "")
     if cancel_ok:
         # cancellation happens on every path of an open socket
-        cn = [n for n in g.nodes if n.kind == "for" and dotted(n.ast.iter.args[0] if isinstance(n.ast.iter, ast.Call) and n.ast.iter.args else n.ast.iter) == "self._background_tasks"]
+        cn = [n for n in g.nodes if n.kind == "for" and any(isinstance(x, ast.Call) and (dotted(x.func) or "").endswith(".cancel") for s_ in n.ast.body for x in ast.walk(s_))]
         ok = bool(cn) and all(g.all_paths_pass(cl.branch(t, "true").id, [g.exit.id], [c.id for c in cn], NONEXC) for t in ts)
         ctx.check(ok, R2, "close:cancel-on-every-path", m, cl.node, "the cancellation loop runs on every path of close() for an open socket", "a path skips it")
     # idiom B guard
